@@ -30,6 +30,20 @@ timeouts: GATT 30 s):
   4. behavioural residue: after a link-level teardown the devices reconnect and the same procedure, fault-free,
      succeeds; where a transport still exists a following HCI command completes.
 
+  5. queued outbound data: once the teardown has been processed no ACL queue of a host holds waiting packets for a
+     handle that is not in Host.connections; no ACL packet for such a handle is ever handed to the controller
+     (tap on host.hci_sink); at the end (all credits back) every queue's `pending` is 0.
+
+Extra fault `disconnect_and_reconnect_same_handle` (procedures with reconnect_fault = True: the GATT server is the
+LE central): from the injection point the central's host reads nothing from its controller (order-preserving
+delay); the peripheral disconnects, advertises again, the central's application connects again — the controller
+gives the new connection the handle just freed; then the late host gets everything back to back.  Registries are
+judged by object identity (an entry keyed by the dead Connection object is residue even though its handle is live).
+
+Procedures queued_outbound_data_{1,2,4}: three devices; the central keeps its controller's 1/2/4 ACL buffers busy
+towards peripheral 1 (Number Of Completed Packets delayed), the data for peripheral 2 can only wait in the host
+queue; the connection to peripheral 2 is the one that is torn.
+
 Not judged (counted in the evidence instead): calls / HCI commands that were *started after* the host's transport
 had died (they were not waiting on it when it was lost); registry entries of a dead connection that are
 semantically empty (unlocked semaphore, `None` confirmation, empty channel dict); calls that end by a built-in
@@ -58,6 +72,7 @@ HORIZON = 120.0
 LINK_FAULTS = ['local_disconnect', 'peer_disconnect', 'link_loss']
 TRANSPORT_FAULTS = ['local_transport_loss', 'peer_transport_loss']
 FAULTS = LINK_FAULTS + TRANSPORT_FAULTS
+RECONNECT_FAULT = 'disconnect_and_reconnect_same_handle'  # only for procedures with reconnect_fault = True
 HOLDS = [None, ('h2c', 0), ('h2c', 1), ('c2h', 0), ('c2h', 1), ('link', 0), ('link', 1)]
 MAX_STEPS = 100000
 SEED = int(os.environ.get('VERIF_SEED', '0') or 0)  # feeds bumble's random draws (addresses, nonces, passkeys)
@@ -138,20 +153,24 @@ class Tracker:
 # ---------------------------------------------------------------------------
 # world helpers
 # ---------------------------------------------------------------------------
-def connect(w, classic):
-    return w.connect_classic() if classic else w.connect_le()
+def connect(w, proc):
+    a, b = proc.pair
+    return w.connect_classic(a, b) if proc.transport == 'classic' else w.connect_le(a, b)
 
 
-def link_loss(w, classic):
-    """Both controllers hear from the link that the connection is gone."""
+def link_loss(w, classic, ends):
+    """Both controllers hear from the link that the connection under test is gone.  ends = [(device index, handle)]."""
     from bumble import ll, lmp
 
-    for c in w.controllers:
-        if classic:
-            for peer in list(c.classic_connections):
+    for i, handle in ends:
+        c = w.controllers[i]
+        table = c.classic_connections if classic else c.le_connections
+        for peer, conn in list(table.items()):
+            if conn.handle != handle:
+                continue
+            if classic:
                 c.on_lmp_packet(peer, lmp.LmpDetach(0x08))
-        else:
-            for peer in list(c.le_connections):
+            else:
                 c.on_ll_control_pdu(peer, ll.TerminateInd(0x08))
 
 
@@ -180,6 +199,43 @@ def lose_transport(w, i, running=None):
         w.transport_lost_raised.append(f'{type(e).__name__}: {e}')
 
 
+class SinkTap:
+    """Between a host and its controller (host -> controller direction): notes every ACL packet handed over for
+    a handle the host itself no longer lists as a connection (queued data of a closed connection getting out)."""
+
+    def __init__(self, host, sink, log):
+        self.host, self.sink, self.log = host, sink, log
+
+    def on_packet(self, packet):
+        if packet[0] == 0x02:
+            handle = (packet[1] | (packet[2] << 8)) & 0x0FFF
+            if handle not in self.host.connections:
+                self.log.append(handle)
+        self.sink.on_packet(packet)
+
+
+class LateHost:
+    """A host that is late reading its transport: from `hold()` on, what its controller sends is kept, in order,
+    and handed over back to back by `release()` (an order-preserving delay of that c2h channel)."""
+
+    def __init__(self, controller, host):
+        self.controller, self.host, self.held, self.active = controller, host, [], False
+
+    def on_packet(self, packet):
+        self.held.append(packet)
+
+    def hold(self):
+        self.active = True
+        self.controller.host = self
+
+    def release(self):
+        self.active = False
+        self.controller.host = self.host
+        held, self.held = self.held, []
+        for packet in held:
+            self.host.on_packet(packet)
+
+
 def tables(w, i):
     h = set(w.hosts[i].connections)
     d = set(w.devices[i].connections)
@@ -187,9 +243,20 @@ def tables(w, i):
     return h, d, c
 
 
+def queued_for_dead(w, i):
+    """ACL queues of host i that hold waiting packets for a handle that is not a connection of that host."""
+    out = []
+    host = w.hosts[i]
+    for qn in ('acl_packet_queue', 'le_acl_packet_queue'):
+        q = getattr(host, qn, None)
+        if q is not None and any(h not in host.connections for _, h in q._packets):
+            out.append(qn)
+    return out
+
+
 def registry_residue(w, i):
     """Names of per-connection registries of device i that still hold something for a connection that is not
-    in Device.connections."""
+    (by object identity) in Device.connections."""
     dev = w.devices[i]
     live = dev.connections
     out = []
@@ -205,13 +272,12 @@ def registry_residue(w, i):
         out.append('gatt_server.indication_semaphores')
     if any(dead_bearer(b) and f is not None for b, f in gs.pending_confirmations.items()):
         out.append('gatt_server.pending_confirmations')
-    if any(h not in live for h in dev.smp_manager.sessions):
+    if any(h not in live or sess.connection is not live[h] for h, sess in dev.smp_manager.sessions.items()):
         out.append('smp_manager.sessions')
     lm = dev.l2cap_channel_manager
-    if any(ch and h not in live for h, ch in lm.channels.items()):
-        out.append('l2cap_channel_manager.channels')
-    if any(ch and h not in live for h, ch in lm.le_coc_channels.items()):
-        out.append('l2cap_channel_manager.le_coc_channels')
+    for name, table in (('channels', lm.channels), ('le_coc_channels', lm.le_coc_channels)):
+        if any(ch and (h not in live or any(getattr(x, 'connection', live[h]) is not live[h] for x in ch.values())) for h, ch in table.items()):
+            out.append(f'l2cap_channel_manager.{name}')
     for qn in ('acl_packet_queue', 'le_acl_packet_queue'):
         q = getattr(dev.host, qn, None)
         if q is None:
@@ -239,14 +305,6 @@ def soft_residue(w, i):
     return n
 
 
-def drive(w, tr, first_phase, second_phase):
-    tr.phase = first_phase
-    w.loop.run_quiescent(max_steps=MAX_STEPS)
-    tr.phase = second_phase
-    w.loop.advance(HORIZON, max_steps=MAX_STEPS)
-    w.loop.run_quiescent(max_steps=MAX_STEPS)
-
-
 def hci_probe(w, i, tr, label):
     from bumble import hci
 
@@ -265,26 +323,63 @@ def run_case(proc_name, fault=None, at=0, hold=None):
     notes = {}
 
     def bad(what, msg):
-        viol.append((what, msg))
+        if all(v[0] != what for v in viol):
+            viol.append((what, msg))
 
-    w = World(2, classic=classic, seed=SEED)
+    w = World(proc.n_devices, classic=classic, seed=SEED, controller_attrs=proc.controller_attrs)
     w.__enter__()
     try:
         w.lost = set()
         w.transport_lost_raised = []
         w.in_flight_at_loss = {}
         w.power_on()
+        stale_sent = {}
+        for i, host in enumerate(w.hosts):
+            stale_sent[i] = []
+            host.hci_sink = SinkTap(host, host.hci_sink, stale_sent[i])
         proc.services(w)
-        conns = connect(w, classic)
-        env = P.Env(w, proc.waiting, conns)
+        conns = connect(w, proc)
+        env = P.Env(w, proc.waiting, conns, proc.pair)
         w.run(proc.prepare(env), horizon=w.loop.time() + 60.0)
         w.settle()
         w.loop.collect_exceptions()
-        L, R = proc.waiting, 1 - proc.waiting
+        L, R = env.local_index, env.peer_index
+        pair = sorted((L, R))
+        side_of = {L: 'waiting side', R: 'other side'}
+        handle_of = {L: env.conn.handle, R: env.peer_conn.handle}
 
         tr = Tracker(w.loop)
         msgs = [0]
         injected = [False]
+        late = {}
+        reconn = {}
+
+        def check_queued(when):
+            for i in pair:
+                for qn in queued_for_dead(w, i):
+                    bad(
+                        f'residue: host.{qn}._packets ({side_of[i]})',
+                        f'{side_of[i]}: {when}, host.{qn} still holds waiting packets for a handle that is not in Host.connections',
+                    )
+
+        def drive(first_phase, second_phase):
+            tr.phase = first_phase
+            w.loop.run_quiescent(max_steps=MAX_STEPS)
+            check_queued('once the teardown has been processed')
+            tr.phase = second_phase
+            w.loop.advance(HORIZON, max_steps=MAX_STEPS)
+            w.loop.run_quiescent(max_steps=MAX_STEPS)
+
+        async def reconnect_fault():
+            # the peripheral end leaves, advertises again; the central end (whose host is late) connects again
+            p_dev, c_dev = w.devices[pair[1]], w.devices[pair[0]]
+            p_conn = conns[1]
+            await tr('Connection.disconnect [the fault: peripheral leaves]', p_conn.disconnect())
+            got = []
+            p_dev.once('connection', got.append)
+            reconn['peripheral'] = got
+            await p_dev.start_advertising(advertising_interval_min=500.0, advertising_interval_max=500.0)
+            reconn['central'] = await tr('Device.connect [the fault: central connects again]', c_dev.connect(p_dev.random_address))
 
         def inject(handle):
             injected[0] = True
@@ -296,11 +391,16 @@ def run_case(proc_name, fault=None, at=0, hold=None):
             elif fault == 'peer_disconnect':
                 tr.spawn(tr('Connection.disconnect [the fault, other side]', env.peer_conn.disconnect()))
             elif fault == 'link_loss':
-                link_loss(w, classic)
+                link_loss(w, classic, [(L, handle_of[L]), (R, handle_of[R])])
             elif fault == 'local_transport_loss':
                 lose_transport(w, L, handle)
             elif fault == 'peer_transport_loss':
                 lose_transport(w, R, handle)
+            elif fault == RECONNECT_FAULT:
+                c = pair[0]  # the central end is the victim: its host reads nothing from now on
+                late[c] = LateHost(w.controllers[c], w.hosts[c])
+                late[c].hold()
+                tr.spawn(reconnect_fault())
 
         def on_step(handle):
             if w.loop.classify(handle) is not None:
@@ -318,7 +418,13 @@ def run_case(proc_name, fault=None, at=0, hold=None):
             else:
                 return {'skip': True, 'messages': msgs[0]}
         w.loop.on_step = None
-        drive(w, tr, tr.phase, 'timeout')
+        if fault == RECONNECT_FAULT:
+            # let the link-level reconnection happen (advertising needs time), then the late host catches up
+            w.loop.run_until(lambda: bool(reconn.get('peripheral')), horizon=w.loop.time() + 10.0, max_steps=MAX_STEPS)
+            notes['link_reconnected_before_release'] = bool(reconn.get('peripheral'))
+            for lh in late.values():
+                lh.release()
+        drive(tr.phase, 'timeout')
         notes['messages'] = msgs[0]
 
         if fault is None:
@@ -329,20 +435,23 @@ def run_case(proc_name, fault=None, at=0, hold=None):
                 bad('fault_free_not_finished', 'without any fault the procedure did not finish')
             for u in tr.untracked:
                 bad('fault_free_wrong_result', f'without any fault: {u}')
+            for i in pair:
+                if stale_sent[i]:
+                    bad('fault_free_wrong_result', f'without any fault: ACL data for unknown handles {stale_sent[i]} handed to the controller')
             return {'messages': msgs[0], 'viol': viol, 'fp': tr.fingerprint(), 'calls': [c['name'] for c in tr.calls], 'notes': notes}
 
         # ---- peer transport loss: the waiting side's link is still up; give up on it -------------------
         if fault == 'peer_transport_loss':
             notes['pending_before_disconnect'] = [c['name'] for c in tr.pending()]
-            if set(w.devices[L].connections):
-                for c in list(w.devices[L].connections.values()):
-                    tr.spawn(tr('Connection.disconnect [waiting side gives up on the silent peer]', c.disconnect()))
-                drive(w, tr, 'cut2', 'timeout2')
+            if w.devices[L].connections.get(handle_of[L]) is env.conn:
+                tr.spawn(tr('Connection.disconnect [waiting side gives up on the silent peer]', env.conn.disconnect()))
+                drive('cut2', 'timeout2')
 
         if w.transport_lost_raised:
             # nothing after the raise ran (no 'flush'): whatever else is wrong in this case is a consequence
             e = w.transport_lost_raised[0]
             stuck = [c['name'] for c in tr.pending()]
+            viol.clear()
             bad(
                 f'on_transport_lost_raised: {e.split(":")[0]}',
                 f'Host.on_transport_lost() raised {e}; the flush that releases the waiters was skipped (left pending: {stuck})',
@@ -360,9 +469,9 @@ def run_case(proc_name, fault=None, at=0, hold=None):
             bad(f'awaitable_pending: {c["name"]}', f'{c["name"]} never completed (still pending {HORIZON:.0f} virtual seconds after the fault)')
 
         # ---- (2) connection tables ---------------------------------------------------------------------
-        for i in (0, 1):
+        for i in pair:
             h, d, c = tables(w, i)
-            side = 'waiting side' if i == L else 'other side'
+            side = side_of[i]
             if i in w.lost:
                 if h != d:
                     bad(
@@ -378,24 +487,40 @@ def run_case(proc_name, fault=None, at=0, hold=None):
         torn = fault == 'link_loss' or fault == 'peer_transport_loss'
         if fault in ('local_disconnect', 'peer_disconnect'):
             torn = any(c['name'].startswith('Connection.disconnect [the fault') and c['state'] == 'ok' for c in tr.calls)
-        if torn:
-            for i in (0, 1):
-                if i in w.lost:
-                    continue
-                h, d, c = tables(w, i)
-                if h or d or c:
+        gone = True
+        for i in pair:
+            if i in w.lost:
+                continue
+            h, d, c = tables(w, i)
+            k = handle_of[i]
+            if k in h or k in d or k in c:
+                gone = False
+                if torn:
                     bad(
                         'connection_survives_teardown',
-                        f'device {i} still lists a connection after the link was torn down: host={sorted(h)} device={sorted(d)} controller={sorted(c)}',
+                        f'{side_of[i]} still lists connection 0x{k:04X} after the link was torn down: host={sorted(h)} device={sorted(d)} controller={sorted(c)}',
                     )
 
-        # ---- (3) per-connection registries -------------------------------------------------------------
-        for i in (0, 1):
-            side = 'waiting side' if i == L else 'other side'
+        # ---- (3) per-connection registries, queued data ---------------------------------------------------
+        for i in pair:
+            side = side_of[i]
             for reg in registry_residue(w, i):
                 bad(f'residue: {reg} ({side})', f'{side}: {reg} still holds state of a connection that is not in Device.connections')
             notes['soft'] = notes.get('soft', 0) + soft_residue(w, i)
-        for i in (0, 1):
+            if stale_sent[i]:
+                bad(
+                    f'stale_data_sent: data of a closed connection handed to the controller ({side})',
+                    f'{side}: {len(stale_sent[i])} ACL packet(s) for closed connection(s) {sorted(set(stale_sent[i]))} were handed to the controller after the teardown',
+                )
+            if i not in w.lost:
+                for qn in ('acl_packet_queue', 'le_acl_packet_queue'):
+                    q = getattr(w.hosts[i], qn, None)
+                    if q is not None and q.pending:
+                        bad(
+                            f'residue: host.{qn}.pending ({side})',
+                            f'{side}: host.{qn}.pending={q.pending} although every live connection has been served and all credits are back',
+                        )
+        for i in pair:
             if i in w.lost and any(v[0].startswith('awaitable_pending') for v in viol):
                 continue
             hst = w.hosts[i]
@@ -404,50 +529,54 @@ def run_case(proc_name, fault=None, at=0, hold=None):
                 notes['command_issued_after_transport_loss'] = 1
                 continue
             if hst.pending_command is not None or hst.pending_response is not None or hst.command_semaphore.locked():
-                side = 'waiting side' if i == L else 'other side'
-                bad(f'residue: host.pending_command ({side})', f'{side}: an HCI command is still pending / the command semaphore is still held')
+                bad(f'residue: host.pending_command ({side_of[i]})', f'{side_of[i]}: an HCI command is still pending / the command semaphore is still held')
 
         # ---- (4) behaviour afterwards ------------------------------------------------------------------
         tr2 = Tracker(w.loop)
         tr2.phase = 'after'
-        for i in (0, 1):
+        for i in pair:
             if i not in w.lost and not any(v[0].startswith('residue: host.pending_command') for v in viol):
-                hci_probe(w, i, tr2, 'waiting side' if i == L else 'other side')
+                hci_probe(w, i, tr2, side_of[i])
         w.loop.run_quiescent(max_steps=MAX_STEPS)
         for c in tr2.calls:
             if c['state'] != 'ok':
                 bad(f'residue_behaviour: {c["name"]} {c["state"]}', f'{c["name"]} ended {c["state"]} {c["exc"]}')
         wedged = any(v[0].startswith(('residue_behaviour', 'residue: host.pending_command')) for v in viol)
-        if not w.lost and not wedged and not any(tables(w, i)[k] for i in (0, 1) for k in (0, 1, 2)):
+        conns2 = None
+        if fault == RECONNECT_FAULT:
+            cc, got = reconn.get('central'), reconn.get('peripheral')
+            if cc is not None and got:
+                conns2 = (cc, got[0])
+                notes['handle_reused'] = cc.handle == conns[0].handle
+        elif not w.lost and not wedged and gone:
             try:
-                conns2 = connect(w, classic)
+                conns2 = connect(w, proc)
             except (Hang, StepBudgetExceeded, Exception) as e:  # noqa
                 bad('residue_behaviour: reconnect', f'reconnecting after the teardown failed: {type(e).__name__} {e}')
-                conns2 = None
-            if conns2 is not None:
-                env2 = P.Env(w, proc.waiting, conns2)
-                tr2 = Tracker(w.loop)
-                tr2.phase = 'after'
+        if conns2 is not None and not wedged:
+            env2 = P.Env(w, proc.waiting, conns2, proc.pair)
+            tr2 = Tracker(w.loop)
+            tr2.phase = 'after'
 
-                async def again():
-                    await tr2('[preamble of the procedure]', proc.prepare(env2))
-                    await proc.run(env2, tr2)
+            async def again():
+                await tr2('[preamble of the procedure]', proc.prepare(env2))
+                await proc.run(env2, tr2)
 
-                main2 = tr2.spawn(again())
-                w.loop.run_quiescent(max_steps=MAX_STEPS)
-                if not main2.done():
-                    w.loop.advance(HORIZON, max_steps=MAX_STEPS)
-                for c in tr2.calls:
-                    if c['state'] != 'ok':
-                        bad(
-                            f'residue_behaviour: {c["name"]} {c["state"]} {c["exc"] or ""}'.strip(),
-                            f'on a new connection after the teardown, {c["name"]} ended {c["state"]} {c["exc"]} {c.get("detail", "")}',
-                        )
-                        break
-                else:
-                    for u in tr2.untracked:
-                        bad('residue_behaviour: wrong result', f'on a new connection after the teardown: {u}')
-                notes['rerun'] = True
+            main2 = tr2.spawn(again())
+            w.loop.run_quiescent(max_steps=MAX_STEPS)
+            if not main2.done():
+                w.loop.advance(HORIZON, max_steps=MAX_STEPS)
+            for c in tr2.calls:
+                if c['state'] != 'ok':
+                    bad(
+                        f'residue_behaviour: {c["name"]} {c["state"]} {c["exc"] or ""}'.strip(),
+                        f'on a new connection after the teardown, {c["name"]} ended {c["state"]} {c["exc"]} {c.get("detail", "")}',
+                    )
+                    break
+            else:
+                for u in tr2.untracked:
+                    bad('residue_behaviour: wrong result', f'on a new connection after the teardown: {u}')
+            notes['rerun'] = True
         notes['timeout_finished'] = sum(1 for c in tr.calls if c['phase'] in ('timeout', 'timeout2'))
         notes['loop_exceptions'] = [e[1][:80] for e in w.loop.collect_exceptions()][:3]
         return {'messages': msgs[0], 'viol': viol, 'fp': tr.fingerprint(), 'notes': notes, 'injected': injected[0]}
@@ -509,6 +638,9 @@ def w_item(arg):
         st.count('empty_entries_left_for_dead_connections', r['notes'].get('soft', 0))
         st.count('calls_started_after_transport_loss_left_pending', r['notes'].get('call_started_after_transport_loss', 0))
         st.count('commands_issued_after_transport_loss_left_pending', r['notes'].get('command_issued_after_transport_loss', 0))
+        if fault == RECONNECT_FAULT:
+            st.count('reconnect_fault_link_up_again_before_host_caught_up', 1 if r['notes'].get('link_reconnected_before_release') else 0)
+            st.count('reconnect_fault_handle_reused', 1 if r['notes'].get('handle_reused') else 0)
         if r['notes'].get('pending_before_disconnect'):
             st.count('peer_transport_loss_calls_waiting_until_local_disconnect', 1)
         for what, msg in r['viol']:
@@ -539,10 +671,10 @@ def run(ctx: core.Context) -> int:
     size = {p: run_case(p)['messages'] for p in procs}
     items = [(p, None, None, generic) for p in procs]
     for p in sorted(procs, key=lambda p: -size[p]):
-        for f in FAULTS:
+        for f in FAULTS + ([RECONNECT_FAULT] if P.PROCS[p].reconnect_fault else []):
             for h in holds:
-                if h is not None and p in IDLE.values():
-                    continue
+                if h is not None and (p in IDLE.values() or f == RECONNECT_FAULT):
+                    continue  # the reconnect fault comes with its own hold (the victim host reads late)
                 items.append((p, f, h, generic))
     st = ctx.sub('teardown')
     for r in core.pmap(w_item, items, ctx.jobs):
